@@ -64,6 +64,11 @@ def gen_dir(rng):
     files = {"target.zo": gen_page(rng, 5, with_ids=True), "foo_bar.zo": gen_page(rng, 4), "fooXbar.zo": gen_page(rng, 3),
              "sub/bar.zo": gen_page(rng, 4), "sub/foo.zo": gen_page(rng, 3), "Zed.zo": gen_page(rng, 3)}
     files["target.zo"] = files["target.zo"].replace("\n\n", "\n\n- 240105#0A the zid target note\n", 1)
+    # every directory has notes that reach the target page through each kind of indirection (page link, anchor, the ID,
+    # the RID of the note that owns BOTH an ID and an RID, the RID-only note, the ZID)
+    files["Zed.zo"] += ("- 240106#Z1 via page [[target]]\n- 240106#Z2 via anchor [[target#sec]]\n- 240106#Z3 via id [#gid3]\n"
+                        "- 240106#Z4 via rid of the id-owner [@rid2]\n- 240106#Z5 via rid [@rid1]\n- 240106#Z6 via zid [240105#0A]\n"
+                        "- 240106#Z7 via nothing [[targetX]]\n\n")
     return files
 
 
@@ -271,6 +276,7 @@ def run(oc, tier, seed):
                 Z.db_create(d)
                 ix = read_index(d)
                 queries = [c["q"] for c in (json.load(open(f)) for f in sorted(glob.glob(os.path.join(lib.VERIF, "corpus", "C03", "*.json"))))]
+                queries += ["W [[target]]", "W [[target]] plain", "W ([[target]] | [[sub/bar]])", "W [[Zed]]"]
                 queries += [gen_query(rng, today) for _ in range(n_q)]
                 for q in queries:
                     oc.evaluations += 1
